@@ -169,6 +169,15 @@ func judgeNotes(o *SyncObs) (string, string) {
 		if n > 1 {
 			return "deleted-twice", fmt.Sprintf("%s reported deleted %d times", p, n)
 		}
+		// deletes name the top-most removed paths: what lay below a removed directory went with it
+		if i := strings.LastIndexByte(p, '/'); i >= 0 {
+			par := p[:i]
+			if pb := o.Before.Find(par); pb != nil && pb.Kind == fsmodel.Dir {
+				if pa := o.After.Find(par); pa == nil || pa.Kind != fsmodel.Dir {
+					return "delete-of-non-topmost-path", fmt.Sprintf("%s reported deleted although its directory %s was removed (or replaced) as a whole", p, par)
+				}
+			}
+		}
 	}
 	for _, b := range o.Before {
 		if o.After.Find(b.Path) != nil {
@@ -423,6 +432,31 @@ func c05Cases(tier string) []c05Case {
 					c := SyncCase{Src: mt, Mem: mem, MetaOn: true, MetaSel: sel}
 					out = append(out, c05Case{Sync: &c})
 				}
+			}
+		}
+	}
+	// runs of removed directories: two and three neighbours with contents go at once, with and without survivors around
+	{
+		T := fsmodel.T0
+		f := func(p string, seed int) fsmodel.Node {
+			return fsmodel.Node{Path: p, Kind: fsmodel.File, Perm: 0644, Mtime: T + int64(seed), Data: fsmodel.Content(seed, 4)}
+		}
+		dd := func(p string, seed int) fsmodel.Node {
+			return fsmodel.Node{Path: p, Kind: fsmodel.Dir, Perm: 0755, Mtime: T + int64(seed)}
+		}
+		old := fsmodel.Tree{dd("a", 1), f("a/x", 2), dd("b", 3), f("b/y", 4), dd("b/z", 5), f("b/z/w", 6), dd("c", 7), f("c/v", 8), f("d", 9)}
+		old.Sort()
+		tops := []string{"a", "b", "c", "d"}
+		for mask := 0; mask < 1<<len(tops); mask++ {
+			var src fsmodel.Tree
+			for i, tp := range tops {
+				if mask&(1<<i) != 0 {
+					src = append(src, old.Under(tp)...)
+				}
+			}
+			for _, mem := range []bool{true, false} {
+				c := SyncCase{Src: src, Dst: old, Mem: mem}
+				out = append(out, c05Case{Sync: &c})
 			}
 		}
 	}
